@@ -133,6 +133,7 @@ class Sink {
     bool is_file_sync_enabled_ = false;
 
     std::atomic_bool is_enabled_{false};
+    std::atomic_int  committing_count_{0};  //! 正在 commitRecord() 中向 async_pipe_ 追加数据的线程数
 
     util::AsyncPipe async_pipe_;
 
